@@ -286,7 +286,7 @@ use crate::std::net::{IpAddr, Ipv4Addr};
 /// it must not be polled again after it has completed
 #[verifier::external_body]
 #[verifier::reject_recursive_types(T)]
-pub struct BoxFuture<'a, T> { _p: core::marker::PhantomData<&'a T> }
+pub struct BoxFuture<'a, T> { _p: core::marker::PhantomData<(fn(&'a ()), T)> }
 impl<'a, T> BoxFuture<'a, T> {
     pub uninterp spec fn done(&self) -> bool;
     pub uninterp spec fn polls(&self) -> nat;
